@@ -40,6 +40,43 @@ def scan : Bytes → Option (Bytes × Bytes × Bool)
       | none => none
       | some (l, r, k) => some (b :: l, r, k)
 
+/-! ### the same search, statement by statement
+
+`index = -1` / `for e in eols: i = raw.find(e)` / `if i >= 0 and (index < 0 or i < index): index = i; eol = e`
+then `line = raw[:index]`, `del raw[:index + len(eol)]`, `skip = (eol == CR and not raw and CRLF in eols)`.
+`Props/C33.lean` proves `scanFind = scan`. -/
+
+/-- `raw.find(bytes([c]))` -/
+def findByte (c : Nat) : Bytes → Option Nat
+  | [] => none
+  | a :: r => if a = c then some 0 else (findByte c r).map (· + 1)
+
+/-- `raw.find(b"\r\n")` -/
+def findCRLF : Bytes → Option Nat
+  | [] => none
+  | [_] => none
+  | a :: b :: r => if a = 13 ∧ b = 10 then some 0 else (findCRLF (b :: r)).map (· + 1)
+
+/-- one pass of the `for e in eols` loop; the eol is a tag: 0 = CRLF, 1 = LF, 2 = CR -/
+def better (cur : Option (Nat × Nat)) (i : Option Nat) (tag : Nat) : Option (Nat × Nat) :=
+  match i with
+  | none => cur
+  | some i =>
+    match cur with
+    | none => some (i, tag)
+    | some (j, t) => if i < j then some (i, tag) else some (j, t)
+
+def earliestFind (raw : Bytes) : Option (Nat × Nat) :=
+  better (better (better none (findCRLF raw) 0) (findByte 10 raw) 1) (findByte 13 raw) 2
+
+def eolLen (tag : Nat) : Nat := if tag = 0 then 2 else 1
+
+def scanFind (raw : Bytes) : Option (Bytes × Bytes × Bool) :=
+  match earliestFind raw with
+  | none => none
+  | some (i, tag) =>
+    some (raw.take i, raw.drop (i + eolLen tag), tag = 2 && (raw.drop (i + eolLen tag)).isEmpty)
+
 /-! ### the text primitives used by parseEvents -/
 
 /-- `line.partition(sep)` : (head, sep found, tail) -/
